@@ -311,6 +311,7 @@ func c01DictGroupsCase(ctx *core.Ctx, d interface {
 	}
 	// the model session over the row groups as the FILES hold them (MaxRowsPerRowGroup cuts where it cuts)
 	var sessOps []string
+	var partOfIdx, partOfReset []int // per real row group: the session part answering its Insert (-1: none) and its Reset
 	var realGroups []c01dgRowGroup
 	totalGroups := 0
 	for fi, data := range files {
@@ -348,7 +349,17 @@ func c01DictGroupsCase(ctx *core.Ctx, d interface {
 			if len(toks) > 0 {
 				v = strings.Join(toks, ",")
 			}
-			sessOps = append(sessOps, "i="+v, "r")
+			// A row group without a single non-null value never reaches the dictionary: the column
+			// buffer has nothing to insert, so the session has no Insert for it (an EMPTY Insert is not
+			// a no-op for every type: booleanDictionary.insert adds false and true on its first call).
+			if len(toks) > 0 {
+				partOfIdx = append(partOfIdx, len(sessOps))
+				sessOps = append(sessOps, "i="+v, "r")
+			} else {
+				partOfIdx = append(partOfIdx, -1)
+				sessOps = append(sessOps, "r")
+			}
+			partOfReset = append(partOfReset, len(sessOps)-1)
 			realGroups = append(realGroups, g)
 		}
 	}
@@ -368,13 +379,13 @@ func c01DictGroupsCase(ctx *core.Ctx, d interface {
 		return
 	}
 	parts := strings.Split(f[1], ";")
-	if len(parts) != 2*len(realGroups) {
+	if len(parts) != len(sessOps) {
 		ctx.Fail("L2", "dictgroups model-refuses "+kind.name, "the model answered "+ans[0], detail(map[string]any{"request": req}))
 		return
 	}
 	for gi, g := range realGroups {
 		if !g.hasDict {
-			if parts[2*gi] != "-" {
+			if partOfIdx[gi] >= 0 && parts[partOfIdx[gi]] != "-" {
 				ctx.Fail("L1", "dictgroups not-dictionary-encoded "+sig, "a row group with values of a dictionary-encoded column has no dictionary page", detail(map[string]any{"row_group": gi}))
 			}
 			continue
@@ -391,12 +402,16 @@ func c01DictGroupsCase(ctx *core.Ctx, d interface {
 		if len(g.indexes) == 0 {
 			realIdx = "-"
 		}
-		if parts[2*gi+1] != realDict {
-			ctx.Fail("L2", "dictgroups dictionary-differs "+sig, "the dictionary page of a row group differs from the page of the mirror session (Insert per row group, Reset between)", detail(map[string]any{"row_group": gi, "real": realDict, "model": parts[2*gi+1], "request": req}))
+		modelIdx := "-"
+		if partOfIdx[gi] >= 0 {
+			modelIdx = parts[partOfIdx[gi]]
+		}
+		if parts[partOfReset[gi]] != realDict {
+			ctx.Fail("L2", "dictgroups dictionary-differs "+sig, "the dictionary page of a row group differs from the page of the mirror session (Insert per row group, Reset between)", detail(map[string]any{"row_group": gi, "real": realDict, "model": parts[partOfReset[gi]], "request": req}))
 			return
 		}
-		if parts[2*gi] != realIdx {
-			ctx.Fail("L2", "dictgroups indexes-differ "+sig, "the indexes stored in a row group differ from those the mirror session hands out", detail(map[string]any{"row_group": gi, "real": realIdx, "model": parts[2*gi], "request": req}))
+		if modelIdx != realIdx {
+			ctx.Fail("L2", "dictgroups indexes-differ "+sig, "the indexes stored in a row group differ from those the mirror session hands out", detail(map[string]any{"row_group": gi, "real": realIdx, "model": modelIdx, "request": req}))
 			return
 		}
 	}
